@@ -137,6 +137,18 @@ pub fn expected(op: &str, a: &[Vec<u8>]) -> Option<Option<[Fp; 4]>> {
         Some([Fp::from_u64(c[0] as u64), Fp::from_u64(c[1] as u64), Fp::from_u64(c[2] as u64), Fp::from_u64(c[3] as u64)])
     };
     let ds = |x: &[Fp; 4]| [x[1].sub(&x[0]), x[1].add(&x[0]), x[3].sub(&x[2]), x[3].add(&x[2])];
+    if &op[3..] == "new" || &op[3..] == "splat_raw" {
+        let lay = crate::layout::fe_layout();
+        let mut o = [Fp::ZERO; 4];
+        for i in 0..4 {
+            let idx = if &op[3..] == "new" { i } else { 0 };
+            match a.get(idx).and_then(|x| lay.operand_value(x)) {
+                Some(v) => o[i] = v,
+                None => return Some(None),
+            }
+        }
+        return Some(Some(o));
+    }
     Some(Some(match &op[3..] {
         "id" | "reduce" => v!(0),
         "splat" => {
@@ -184,7 +196,7 @@ pub fn output_bound(op: &str) -> Option<(u64, u64)> {
     let b = |x: f64| ((2f64.powf(26.0 + x)).ceil() as u64, (2f64.powf(25.0 + x)).ceil() as u64);
     match op {
         "v2.id" => None,
-        "v2.reduce" | "v2.neg" | "v2.splat" => Some(b(0.0002)),
+        "v2.reduce" | "v2.neg" | "v2.splat" | "v2.new" | "v2.splat_raw" => Some(b(0.0002)),
         "v2.negate_lazy" => Some(b(1.0)),
         "v2.diff_sum" => Some(b(1.6)),
         "v2.sqnd" | "v2.mul" | "v2.mul_consts" => Some(b(0.007)),
